@@ -168,7 +168,7 @@ func (sc *Scanner) scanNumber(ch int, buf *bytes.Buffer) error {
 			if !hasvalue {
 				return sc.Error(buf.String(), "illegal hexadecimal number")
 			}
-			return nil
+			return sc.scanNumberEnd(buf)
 		} else if sc.Peek() != '.' && isDecimal(sc.Peek()) {
 			ch = sc.Next()
 		}
@@ -194,7 +194,19 @@ func (sc *Scanner) scanNumber(ch int, buf *bytes.Buffer) error {
 		sc.scanDecimal(sc.Next(), buf)
 	}
 
-	return nil
+	return sc.scanNumberEnd(buf)
+}
+
+// scanNumberEnd refuses a numeral that runs into letters, digits or '_' ("0return", "3and",
+// "0xffg", "1_"): llex.c read_numeral takes the whole alphanumeric run as one malformed number.
+func (sc *Scanner) scanNumberEnd(buf *bytes.Buffer) error {
+	if !isIdent(sc.Peek(), 1) {
+		return nil
+	}
+	for isIdent(sc.Peek(), 1) {
+		writeChar(buf, sc.Next())
+	}
+	return sc.Error(buf.String(), "malformed number")
 }
 
 func (sc *Scanner) scanString(quote int, buf *bytes.Buffer) error {
